@@ -54,13 +54,18 @@ def run_sel(g, G, s, bc, n):
 
 
 def run_tr(g, G, vol, r):
-    up, data, _ = discretize(g, r["flux"], [], 1)
-    A, rhs = up.assemble_matrix_rhs(g, data)
-    rhs = np.asarray(rhs, dtype=float).ravel()
-    if not np.array_equal(rhs, np.round(rhs)):
-        raise RuntimeError(f"non-integer right-hand side {rhs}")
-    return dict(kind="tr", g=G, flux=r["flux"], psi=r["psi"], vol=vol, inits=r["inits"], dts=r["dts"],
-                out=dict(A=entries(A), rhs=[int(x) for x in rhs]))
+    try:
+        up, data, _ = discretize(g, r["flux"], [], 1)
+        A, rhs = up.assemble_matrix_rhs(g, data)
+        rhs = np.asarray(rhs, dtype=float).ravel()
+        if not np.array_equal(rhs, np.round(rhs)):
+            raise RuntimeError(f"non-integer right-hand side {rhs}")
+        out = dict(ok=True, A=entries(A), rhs=[int(x) for x in rhs])
+    except RuntimeError:
+        raise
+    except Exception as e:  # noqa: BLE001 - a crash on an input of the family is "no step"
+        out = dict(ok=False, A=[], rhs=[0] * G["nc"], error=f"{type(e).__name__}: {e}"[:200])
+    return dict(kind="tr", g=G, flux=r["flux"], psi=r["psi"], vol=vol, inits=r["inits"], dts=r["dts"], out=out)
 
 
 def tgrid(recipe):
@@ -80,8 +85,11 @@ def tgrid(recipe):
     return g, dict(G=G, orient=orient, vol=[codec.rat(v) for v in g.cell_volumes])
 
 
-def judge_cases(ctx, cases, tag):
-    recs = ctx.judge("J_Upwind", cases, CLAUSES, tag=tag, workers=8)
+def judge_cases(ctx, cases, tag, chunk=6000):
+    recs = []
+    for k in range(0, len(cases), chunk):  # bounded batches keep TLC's memory for the case file small
+        for v in ctx.judge("J_Upwind", cases[k:k + chunk], CLAUSES, tag=f"{tag}{k // chunk}", workers=8):
+            recs.append(dict(clause=v["clause"], case=v["case"] + k))
     seen = {}
     for v in sorted(recs, key=lambda r: (r["clause"], r["case"])):
         case = cases[v["case"] - 1]
@@ -105,7 +113,8 @@ def run(ctx):
     warnings.filterwarnings("ignore")
     ctx.rule = ("selection: every (grid, sign pattern, boundary-condition pattern, components) emitted by TLC - all sign "
                 "assignments on 1D chains, periodic base-3 patterns on 2D/3D grids, complexes with reversed normals "
-                "and split faces instantiated with pp.Grid, real Cartesian / fractured grids - is discretised with "
+                "and split faces instantiated with pp.Grid, real Cartesian / fractured grids - plus seeded random sign / "
+                "condition assignments on larger real grids (2D, 3D, simplex, two fractures) is discretised with "
                 "pp.Upwind and the three matrices are judged by TLC on the faces with nonzero flux; transport: every "
                 "integer stream function on the interior nodes gives a divergence-free no-flow flux, the matrix of "
                 "assemble_matrix_rhs is used by TLC for exact explicit steps (3 initial states x 2 steps) judged for "
@@ -121,7 +130,7 @@ def run(ctx):
         boxes = {("chain", 1, 1), ("chain", 2, 1), ("chain", 3, 1), ("chain", 4, 1), ("quad", 2, 2), ("quad", 3, 2),
                  ("tri", 1, 1), ("tri", 2, 1)}
         consts = dict(Boxes=boxes, MaskBits=2, SplitChoices={-1, 0, 1}, MaxCells=8, SignPeriod=4, BcPeriod=3,
-                      PsiVals={-2, -1, 0, 1, 2}, MaxChainFaces=6, Masks={0, 1, 2, 3})
+                      PsiVals={-2, -1, 0, 1, 2}, MaxChainFaces=5, Masks={0, 1, 2})
         sel_recipes = [["cart", [2, 2]], ["cart", [3, 2]], ["cart", [2, 1, 1]], ["stri", [2, 1]],
                        ["frac", [[[1, 1], [0, 1]]], [2, 2], 0], ["frac", [[[1, 2], [1, 1]]], [3, 2], 0],
                        ["frac", [[[1, 1, 1, 1], [0, 1, 1, 0], [0, 0, 1, 1]]], [2, 1, 1], 0]]
@@ -148,12 +157,25 @@ def run(ctx):
             c = run_tr(g, t["G"], t["vol"], r)
             c["src"] = dict(kind="tr", recipe=t_recipes[gi - 1])
         cases.append(c)
+    # seeded random flux signs / boundary conditions / component counts on (larger) real grids
+    rnd_recipes = sel_recipes + [["cart", [4, 3]], ["cart", [2, 2, 2]], ["stri", [2, 2]],
+                                 ["frac", [[[1, 3], [1, 1]], [[2, 2], [0, 2]]], [4, 2], 0]]
+    for rc in rnd_recipes:
+        g = build(rc)
+        G = grid_to_inc(g)
+        for _ in range(25 if ctx.quick else 250):
+            pz = ctx.rng.choice([0.0, 0.2, 0.5])
+            s = [0 if ctx.rng.random() < pz else ctx.rng.choice([-1, 1]) for _ in range(G["nf"])]
+            bc = ["int" if len(ps) == 2 else ctx.rng.choice(["dir", "neu"]) for ps in G["cf"]]
+            c = run_sel(g, G, s, bc, ctx.rng.randint(1, 3))
+            c["src"] = dict(kind="real", recipe=rc, tag="random")
+            cases.append(c)
     judge_cases(ctx, cases, "judge")
     for c in cases:
         if c["kind"] == "sel":
             nz = sum(1 for x in c["s"] if x)
             nd = sum(1 for b in c["bc"] if b == "dir")
-            lab = str(c["src"].get("recipe") or c["src"]["tag"][:3])
+            lab = str(c["src"].get("recipe") or c["src"]["tag"][:3]) + str(c["src"]["tag"] == "random")
             ctx.case(key=("sel", lab, nz, nd, c["n"]), nontrivial=nz > 0)
         else:
             nzf = sum(1 for x in c["flux"] if x)
